@@ -716,6 +716,8 @@ EXCLUSIONS = {"C40-KF2": _excl_kf2, "C40-KF1": _excl_kf1, "C40-KF3": _excl_kf3}
 
 
 def apply_exclusions(sig, stats):
+    if os.environ.get("VERIF_C40_NO_EXCLUSIONS"):  # for validating fix patches: search the excluded shapes too
+        return sig
     open_ids = open_finding_ids(PID)
     for kid, fn in EXCLUSIONS.items():
         if kid in open_ids:
@@ -780,13 +782,6 @@ def sig_strategy(draw):
     }
 
 
-def batch_strategy(size):
-    def number(sigs):
-        return {"sigs": [dict(s, idx=i) for i, s in enumerate(sigs)]}
-
-    return st.lists(sig_strategy(), min_size=size, max_size=size).map(number)
-
-
 # ---------------------------------------------------------------------------
 # Search
 
@@ -797,6 +792,7 @@ def _kind(msg):
 def minimise(sig, msg, budget=30):
     """Greedy reduction of a confirmed failing signature; keeps the kind of the first problem."""
     kind = _kind(msg)
+    kid0 = classify({"sigs": [sig]}, fail_message(sig, msg))
 
     def still_fails(cand):
         nonlocal budget
@@ -807,7 +803,9 @@ def minimise(sig, msg, budget=30):
             k, v = eval_in_tmp([cand])[cand["idx"]]
         except HarnessError:
             return None
-        return v if (k == "fail" and _kind(v) == kind) else None
+        if k != "fail" or _kind(v) != kind or classify({"sigs": [cand]}, fail_message(cand, v)) != kid0:
+            return None
+        return v
 
     changed = True
     while changed and budget > 0:
@@ -842,13 +840,21 @@ def sig_classes(sig, outcome):
 
 
 def _worker(arg):
-    seed, nbatches, bsize = arg
+    """Hypothesis draws the signatures; they are evaluated in link batches of bsize afterwards."""
+    seed, nsigs, bsize = arg
     stats = Stats()
     fails = []
     open_ids = open_finding_ids(PID)
+    drawn = []
 
-    def prop(case):
-        sigs = [apply_exclusions(s, stats) for s in case["sigs"]]
+    def prop(sig):
+        drawn.append(apply_exclusions(sig, stats))
+        return None
+
+    hyp_search(sig_strategy(), prop, nsigs, seed, stats, shrink=False)
+    confirmations = 0
+    for i in range(0, len(drawn), bsize):
+        sigs = [dict(s, idx=j) for j, s in enumerate(drawn[i:i + bsize])]
         res = eval_in_tmp(sigs)
         for sig in sigs:
             kind, val = res[sig["idx"]]
@@ -860,6 +866,10 @@ def _worker(arg):
             stats.case(sig_key(sig) if nt else None, nt, sample, classes=sig_classes(sig, kind))
             if kind != "fail":
                 continue
+            if confirmations >= 8:
+                stats.hist["failures_not_rerun"] += 1
+                continue
+            confirmations += 1
             # second, fresh, isolated run before it counts
             single = dict(sig)
             k2, v2 = eval_in_tmp([single])[single["idx"]]
@@ -871,16 +881,9 @@ def _worker(arg):
             if kid and kid in open_ids:
                 stats.known[kid] += 1
                 continue
-            if len(fails) < 3:
-                small, smsg = minimise(single, v2)
-                kid = classify({"sigs": [small]}, fail_message(small, smsg))
-                if kid and kid in open_ids:
-                    stats.known[kid] += 1
-                    continue
-                fails.append(({"sigs": [small]}, fail_message(small, smsg)))
-        return None
-
-    hyp_search(batch_strategy(bsize), prop, nbatches, seed, stats, shrink=False)
+            if len(fails) < 2:
+                single, v2 = minimise(single, v2)
+            fails.append(({"sigs": [single]}, fail_message(single, v2)))
     return stats, fails
 
 
@@ -888,6 +891,6 @@ def run(ctx):
     why = x86link.have_toolchain()
     if why:
         raise HarnessError(why)
-    nbatches, bsize = ctx.scale((3, 8), (80, 16))
-    ctx.pmap(_worker, [(subseed(ctx.seed, PID, w), nbatches, bsize) for w in range(16)])
+    nsigs, bsize = ctx.scale((20, 20), (1250, 20))
+    ctx.pmap(_worker, [(subseed(ctx.seed, PID, w), nsigs, bsize) for w in range(16)])
     ctx.extra["targets_covered"] = ["x86_64 (System V, gcc 12 as the conforming compiler)"]
